@@ -1055,10 +1055,12 @@ impl Engine for C14 {
 
     fn isolate_every(&self, unit: &UnitSpec) -> Option<u64> {
         // answers must not depend on namespaces queried earlier in the same process
-        if unit.name.starts_with("bulk:") {
+        if unit.name.starts_with("bulk:") || unit.name == "real-defs" {
             None
+        } else if unit.name.starts_with("pair:") {
+            Some(8)
         } else {
-            Some(32)
+            Some(128)
         }
     }
 
